@@ -7,7 +7,7 @@ R-TRIVIA : the syntax-tree builder and the token filter in front of the parser u
            their text from the lexeme list, in order, exactly once."""
 import re
 from .. import hir as H
-from ..mir import strip, show, short_path, contains, opname
+from ..mir import strip, show, short_path, contains, opname, rel_fact
 from ..report import ok, bad, info, site, Floor
 
 B, C, N, MIX = "bytes", "chars", "line/column", "mixed"
@@ -346,7 +346,12 @@ def run_prov(prog):
                 for e in arr[-1]:
                     if e[0] == "call" and "Argument" in str(e[1]):
                         items.append(_loc_field(e[2][0], g))
-                multi = any(f[2][1] is False and show(strip(f[2][0])).count(".line") == 2 for f in g.facts_at(b))
+                # the write belongs to the several-lines case when `start.line != end.line` is known there (however the test is spelled)
+                multi = False
+                for fct in g.facts_at(b):
+                    r = rel_fact(fct[2][0], fct[2][1]) if isinstance(fct[2][1], bool) else None
+                    if r and r[0] == "Ne" and show(r[1]).endswith(".line") and show(r[2]).endswith(".line"):
+                        multi = True
                 groups.append((b, t["line"], items, multi))
         for gi, (b, line, items, multi) in enumerate(groups):
             n += 1
